@@ -2,7 +2,10 @@
 
 package loadbalancer
 
-import "github.com/0xReLogic/Helios/internal/circuitbreaker"
+import (
+	"github.com/0xReLogic/Helios/internal/circuitbreaker"
+	"github.com/0xReLogic/Helios/internal/ratelimiter"
+)
 
 // VerifBackends returns the live *Backend values of the current strategy.
 func (lb *LoadBalancer) VerifBackends() []*Backend {
@@ -24,4 +27,15 @@ func (lb *LoadBalancer) VerifWSPool() *WebSocketPool {
 // VerifJumpHash exposes the jump consistent hash step.
 func VerifJumpHash(key uint64, numBuckets int32) int32 {
 	return jumpHash(key, numBuckets)
+}
+
+// VerifLimiter returns the balancer's token-bucket rate limiter (nil when disabled).
+func (lb *LoadBalancer) VerifLimiter() *ratelimiter.TokenBucketRateLimiter {
+	rl, _ := lb.rateLimiter.(*ratelimiter.TokenBucketRateLimiter)
+	return rl
+}
+
+// VerifCleanup runs one sweep of the pool's periodic cleanup now (the loop runs one every 30 s).
+func (p *WebSocketPool) VerifCleanup() {
+	p.cleanup()
 }
